@@ -5,6 +5,7 @@ import RTA.Lemmas.ExecRefine
 import RTA.Lemmas.ExecRunMeets
 import RTA.Lemmas.ExecEndToEnd
 import RTA.Lemmas.ExecEndToEndExample
+import RTA.Lemmas.ExecEndToEndX
 import RTA.Spec.Ros2Exec
 /-! # C05 — the RTSS'21 round-robin-aware (rr) and busy-window-aware (bw) analyses are safe
 
@@ -282,6 +283,49 @@ theorem rr_safe_end_to_end_nonvacuous :
       o.2.2 ≤ o.2.1 + (Exec.exWl.getD o.1 default).rtb :=
   ⟨Exec.rr_exec_sound_nonvacuous.2.2.2.2.2.2.2.2.2.2.2.1, Exec.rr_exec_sound_nonvacuous.2.2.2.2.2.2.2.2.2.2.2.2,
     Exec.rr_example_bounded⟩
+
+/-- **C05, rr, end to end, ALL EXECUTION TIMES**: in the executor transition system
+`RTA/Spec/Ros2ExecX.lean` the instance of callback `k` that starts in slot `t` runs for `ex k t`
+slots, anywhere between 1 and the callback's WCET (`hex`); everything else as in
+`rr_safe_end_to_end` -/
+theorem rr_safe_all_execution_times (cbs : List Exec.Cb) (ex : Nat → Nat → Nat) (sigma : Nat → Bool) (rels : Nat → List Nat) (H : Nat)
+    (hidx : ∀ t, ∀ i ∈ rels t, i < cbs.length) (hfin : ∀ t, H ≤ t → rels t = [])
+    (hex : ∀ k, k < cbs.length → ∀ t, 1 ≤ ex k t ∧ ex k t ≤ (cbs.getD k default).cost)
+    (sup : Supply) (hs : sup.WF) (hsbf : ∀ t d, sup.sbf d ≤ service sigma t d)
+    (wl : List Callback) (hlen : wl.length = cbs.length)
+    (hscalar : ∀ i, i < wl.length → (wl.getD i default).cost = .scalar (cbs.getD i default).cost)
+    (hwf : ∀ cb ∈ wl, cb.arr.WF)
+    (hkinds : Sched.KindsAgree wl
+      ⟨fun i => (cbs.getD i default).isTimer, fun i => (cbs.getD i default).prio, fun _ => false⟩)
+    (hprio : ∀ i j, i < cbs.length → j < cbs.length → (cbs.getD i default).isTimer = false →
+      (cbs.getD j default).isTimer = false → (cbs.getD i default).prio = (cbs.getD j default).prio → i = j)
+    (hrel : ∀ k, k < cbs.length → ∀ t d, Exec.relCount rels k t d ≤ (wl.getD k default).arr.N d)
+    (limit : Nat)
+    (hself : ∀ i, i < wl.length → ∃ R, rrSubchain sup wl [i] limit = .ok R ∧ R ≤ (wl.getD i default).rtb)
+    (n i : Nat) :
+    ∀ o ∈ ExecX.run cbs ex (fun _ => none) ((List.range n).map sigma) rels, o.1 = i →
+      o.2.2 ≤ o.2.1 + (wl.getD i default).rtb :=
+  ExecX.rr_exec_sound_x cbs ex sigma rels H hidx hfin hex sup hs hsbf wl hlen hscalar hwf hkinds hprio hrel limit hself n i
+
+/-- **C05, bw, end to end, all execution times** -/
+theorem bw_safe_all_execution_times (cbs : List Exec.Cb) (ex : Nat → Nat → Nat) (sigma : Nat → Bool) (rels : Nat → List Nat) (H : Nat)
+    (hidx : ∀ t, ∀ i ∈ rels t, i < cbs.length) (hfin : ∀ t, H ≤ t → rels t = [])
+    (hex : ∀ k, k < cbs.length → ∀ t, 1 ≤ ex k t ∧ ex k t ≤ (cbs.getD k default).cost)
+    (sup : Supply) (hs : sup.WF) (hsbf : ∀ t d, sup.sbf d ≤ service sigma t d)
+    (wl : List Callback) (hlen : wl.length = cbs.length)
+    (hscalar : ∀ i, i < wl.length → (wl.getD i default).cost = .scalar (cbs.getD i default).cost)
+    (hwf : ∀ cb ∈ wl, cb.arr.WF ∧ cb.arr.Exact)
+    (hkinds : Sched.KindsAgree wl
+      ⟨fun i => (cbs.getD i default).isTimer, fun i => (cbs.getD i default).prio, fun _ => false⟩)
+    (hprio : ∀ i j, i < cbs.length → j < cbs.length → (cbs.getD i default).isTimer = false →
+      (cbs.getD j default).isTimer = false → (cbs.getD i default).prio = (cbs.getD j default).prio → i = j)
+    (hrel : ∀ k, k < cbs.length → ∀ t d, Exec.relCount rels k t d ≤ (wl.getD k default).arr.N d)
+    (limit : Nat) (dbg : Bool)
+    (hself : ∀ i, i < wl.length → ∃ R, bwSubchain sup wl [i] limit dbg = .ok R ∧ R ≤ (wl.getD i default).rtb)
+    (n i : Nat) :
+    ∀ o ∈ ExecX.run cbs ex (fun _ => none) ((List.range n).map sigma) rels, o.1 = i →
+      o.2.2 ≤ o.2.1 + (wl.getD i default).rtb :=
+  ExecX.bw_exec_sound_x cbs ex sigma rels H hidx hfin hex sup hs hsbf wl hlen hscalar hwf hkinds hprio hrel limit dbg hself n i
 
 /-- analysis side: rr = naive linear-scan evaluation -/
 theorem rr_is_naive (s : Supply) (hs : s.WF) (wl : List Callback) (sub : List Nat) (limit : Nat)
